@@ -110,8 +110,11 @@ def gen_cases(rng, lays, per_layout, quick):
                 for j in range(len(recs)):
                     if rng.random() < 0.12:
                         recs[j] = (U.invalid_tv(lay), "ff")
-            cases.append(dict(layout=name, ordering=ordering, recs=recs, lo=lo, hi=hi, window=wdesc,
-                              strmode=rng.choice(["normal"] * 6 + U.STR_MODES[1:]),
+            strmode = rng.choice(["normal"] * 6 + U.STR_MODES[1:])
+            if rng.random() < 0.3:
+                strmode += "+real%d" % rng.randrange(8)
+            cases.append(dict(layout=name, ordering=ordering, recs=recs, lo=lo, hi=hi, window=wdesc, fname=rng.choice(U.layout_names(name)),
+                              strmode=strmode,
                               bs_bin=rng.choice([64, 65, 128, 300, 512, 4096, 65536]),
                               bs_proc=rng.choice([1, 7, 16, 33, 64, 300, 512, 4096, 65536]) if n <= 40 else rng.choice([64, 300, 512, 4096, 65536]),
                               container=rng.choice(["plain", "plain", "plain", "gz", "xz", "tar"])))
@@ -149,6 +152,26 @@ def boundary_cases(rng, lays):
             recs = [(t, None) for t in times(n)]
             cases.append(dict(layout=name, ordering="values_" + ext, recs=recs, lo=None, hi=None, window="none", strmode="normal+" + ext,
                               bs_bin=rng.choice([64, 65536]), bs_proc=rng.choice([64, 4096]), container=conts[k % 3]))
+            k += 1
+        # (1c) real-world file names (the name hints which layouts get the bonus) x record counts that make
+        #      another layout's entry size divide the file size x first records of every ut_type with
+        #      real-world user names / 4-character ids
+        counts_hint, counts_other = set(), set()
+        for fname in U.layout_names(name):
+            for oname, o in lays.items():
+                if o["size"] == lay["size"]:
+                    continue
+                import math
+                n0 = o["size"] // math.gcd(o["size"], lay["size"])
+                if n0 <= 70:
+                    # the other layout receives the name bonus under this file name: always tried
+                    (counts_hint if U.NAME_KIND[fname] == o["kind"] else counts_other).add((fname, n0))
+        picks = sorted(counts_hint) + rng.sample(sorted(counts_other), min(2, len(counts_other)))
+        for fname, n0 in picks:
+            n = n0 * rng.choice([1, 1, 2]) if n0 * 2 <= 70 else n0
+            recs = [(t, None) for t in times(n)]
+            cases.append(dict(layout=name, ordering="names_%s_x%d" % (fname, n0), recs=recs, lo=None, hi=None, window="none", fname=fname,
+                              strmode="normal+real%d" % (k % 8), bs_bin=rng.choice([64, 65536]), bs_proc=rng.choice([64, 4096]), container=conts[k % 3]))
             k += 1
         # (2) invalid entries
         for where in ("start", "middle", "end", "start_middle_end", "two_consecutive_start", "all_but_one", "with_nulls"):
@@ -469,7 +492,7 @@ def write_case_files(d, lays, cases):
         data = U.build_file(lay, c["recs"], c.get("strmode"))
         sub = os.path.join(d, "%04d" % i)
         os.makedirs(sub, exist_ok=True)
-        base = U.KIND_NAME[lay["kind"]]
+        base = U.case_fname(lay, c)
         c["plain_path"] = os.path.join(sub, base)
         with open(c["plain_path"], "wb") as f:
             f.write(data)
@@ -557,7 +580,7 @@ def utmpx_read_as_freebsd(lays_ref, c):
     layout reported by the implementation itself (see detection_symptom)."""
     lay = lays_ref[c["layout"]]
     fsz = len(c["recs"]) * lay["size"]
-    if fsz == 0 or c.get("strmode", "normal") == "normal":
+    if fsz == 0 or U.split_mode(c.get("strmode"))[0] == "normal":
         return False
     return any(o["size"] != lay["size"] and fsz % o["size"] == 0 for o in lays_ref.values())
 
@@ -588,7 +611,7 @@ def layout_score_tie(lays_ref, c):
     try:
         tab = gen_tables()
         data = open(c["plain_path"], "rb").read()
-        kind = lays_ref[c["layout"]]["kind"]
+        kind = U.case_kind(lays_ref[c["layout"]], c)
         cands = candidates(tab, lays_ref, kind, len(data))
         if len(cands) < 2:
             return False
@@ -613,7 +636,7 @@ def detection_symptom(c, err, nlines):
 
 
 def case_public(c):
-    return dict(layout=c["layout"], ordering=c["ordering"], window=c["window"], strmode=c.get("strmode", "normal"),
+    return dict(layout=c["layout"], ordering=c["ordering"], window=c["window"], strmode=c.get("strmode", "normal"), fname=c.get("fname"),
                 recs=[[list(t), nk] for t, nk in c["recs"]], lo=list(c["lo"]) if c["lo"] else None,
                 hi=list(c["hi"]) if c["hi"] else None, bs_bin=c["bs_bin"], bs_proc=c["bs_proc"], container=c["container"])
 
@@ -671,7 +694,7 @@ def new_ties(ctx, lays_ref, cases, stats, binary_triples=()):
         data = open(c["plain_path"], "rb").read()
         if not data or len(data) > 8000 or nmis > (150 if quick else 4000):
             continue
-        for n, b in candidates(tab, lays_ref, lays_ref[c["layout"]]["kind"], len(data)):
+        for n, b in candidates(tab, lays_ref, U.case_kind(lays_ref[c["layout"]], c), len(data)):
             if n != c["layout"]:
                 sz = lays_ref[n]["size"]
                 for k in range(min(2, len(data) // sz)):
@@ -693,7 +716,7 @@ def new_ties(ctx, lays_ref, cases, stats, binary_triples=()):
         if key in seen:
             continue
         seen.add(key)
-        files.append((c["plain_path"], lays_ref[c["layout"]]["kind"], data, c["bs_proc"] if c["bs_proc"] >= 64 else 64, "case %d %s %s" % (i, c["layout"], c["ordering"])))
+        files.append((c["plain_path"], U.case_kind(lays_ref[c["layout"]], c), data, c["bs_proc"] if c["bs_proc"] >= 64 else 64, "case %d %s %s" % (i, c["layout"], c["ordering"])))
     r = tie_detect(ctx, tab, lays_ref, files, stats, repeat=2 if quick else 4)
     stats["detect_order_fixed_in_code"] = bool(tab.get("order_fixed"))
 
@@ -746,7 +769,13 @@ def evaluate(ctx, lays_ref, cases, do_b=True):
                  harness_decoder_mismatch=0, printed_records=0, unexpected_entry_errors=0, rendered_inprocess=0, render_mismatch=0, b_skipped_detection_class=0)
     # ---------------- B: in-process reader vs model
     if do_b:
-        lines = ["%s\t%d\t%d\t%s\t%s%s" % (c["plain_path"], U.KINDS.index(lays_ref[c["layout"]]["kind"]), c["bs_proc"],
+        names = sorted(U.NAME_KIND)
+        outk, errk = vlib.harness("c08", ["/x/" + n for n in names], timeout=60, args=["kindof"])
+        want = [str(U.KINDS.index(U.NAME_KIND[n])) for n in names]
+        if outk != want:
+            ctx.obligation_broken("correspondence", "file name -> reader kind (path_to_filetype) vs the check's NAME_KIND",
+                                  json.dumps(dict(names=names, library=outk, check=want, err=errk)))
+        lines = ["%s\t%d\t%d\t%s\t%s%s" % (c["plain_path"], U.KINDS.index(U.case_kind(lays_ref[c["layout"]], c)), c["bs_proc"],
                                           bound_arg(c["lo"]), bound_arg(c["hi"]), "\tR" if len(c["recs"]) <= 16 else "") for c in cases]
         outl, err = vlib.harness("c08", lines, timeout=900)
         if outl is None or len(outl) != len(lines):
@@ -919,7 +948,7 @@ def run(ctx):
             ctx.obligation_broken("translator", "regenerated layout table differs from the frozen reference", json.dumps(sorted(diff)))
     except Exception as e:
         ctx.obligation_broken("translator", "fixedstruct_tables.json unreadable", repr(e))
-    per_layout = 18 if quick else 420
+    per_layout = 16 if quick else 420
     cases = corpus_cases(lays_ref) + boundary_cases(ctx.rng, lays_ref) + gen_cases(ctx.rng, lays_ref, per_layout, quick)
     stats = evaluate(ctx, lays_ref, cases, do_b=ok)
     # ---------------- evidence
@@ -943,6 +972,8 @@ def run(ctx):
         rule="one case = (layout of the frozen reference table, record list with time values in one of five orderings "
              "[sorted, reversed, shuffled, all equal, few distinct seconds], null records interleaved [all-zero entry or zero time], invalid all-0xFF entries interleaved [start/middle/end, one/several], "
              "C-string fields short / width-1 / full width without NUL [all at once, rotating, mixed], "
+             "real-world file name [wtmp, utmp, btmp, wtmp.1, utmpx, wtmpx, btmpx, lastlog, lastlogx, acct, pacct: the name selects which layouts get the bonus] x record counts that make another layout's entry size divide the file size, "
+             "first records of every ut_type with real-world user names and 4-character ids, every shape of ut_addr_v6 [empty, IPv4, IPv6 full / zero middle words / only last word / zero last word / v4-mapped], UTF-8 names, sockaddr bytes, "
              "window [none / bounds exactly on record times / one microsecond inside / before or after all], block size, container); "
              "each case runs in-process (vs model) and through the s4 binary (vs spec). non-trivial = at least two records kept and "
              "(a tie of time values, or file order different from time order, or a null record present, or a bound equal to a kept record's time); "
@@ -953,6 +984,9 @@ def run(ctx):
         string_mode_histogram=hist(lambda c: c.get("strmode", "normal")),
         cases_with_invalid_entries=sum(1 for c in cases if any(nk == "ff" for _, nk in c["recs"])),
         invalid_entries_total=sum(1 for c in cases for _, nk in c["recs"] if nk == "ff"),
+        file_name_histogram=hist(lambda c: c.get("fname") or "(default of the kind)"),
+        value_mode_histogram=hist(lambda c: U.split_mode(c.get("strmode"))[1][:4] or "plain"),
+        address_shapes=len(U.ADDR_SHAPES),
         container_histogram=hist(lambda c: c["container"]), blocksz_binary_histogram=hist(lambda c: c["bs_bin"]),
         blocksz_inprocess_histogram=hist(lambda c: c["bs_proc"]),
         record_count_histogram=hist(lambda c: min(len(c["recs"]) // 25 * 25, 200)),
